@@ -332,22 +332,27 @@ func translateMethod(f *ast.File, typ, name, def string) (string, error) {
 	return "", fmt.Errorf("method %s.%s not found", typ, name)
 }
 
-func translateKernels(src, out string) error {
+func translateKernels(root, out string) error {
+	src := root + "/pkg/sparse/util.go"
+	bsrc := root + "/pkg/basic/eigentrust.go"
 	fset := token.NewFileSet()
 	f, err := parser.ParseFile(fset, src, nil, 0)
 	if err != nil {
 		return err
 	}
+	clean := func(e error) string {
+		return strings.ReplaceAll(strings.ReplaceAll(e.Error(), "(*", "( *"), "*)", "* )")
+	}
 	var b strings.Builder
-	fmt.Fprintf(&b, "(* GENERATED on every run by `harness -translate` from %s — do not edit. *)\n", src)
-	b.WriteString("(* Gallina rendering of the float64 kernels KBNSummer.Add / KBNSummer.Sum, statement by statement (SSA lets). *)\n")
-	b.WriteString("From Coq Require Import Bool.\nFrom ET Require Import Model.Scalar.\n\n")
+	fmt.Fprintf(&b, "(* GENERATED on every run by `harness -translate` from %s and %s — do not edit. *)\n", src, bsrc)
+	b.WriteString("(* Gallina rendering of KBNSummer.Add / KBNSummer.Sum and basic.Canonicalize, statement by statement (SSA lets). *)\n")
+	b.WriteString("From Coq Require Import Bool List.\nFrom ET Require Import Model.Scalar Model.Sparse.\n\n")
 	ok := true
 	for _, m := range [][2]string{{"Add", "gen_kbn_add"}, {"Sum", "gen_kbn_sum"}} {
 		d, err := translateMethod(f, "KBNSummer", m[0], m[1])
 		if err != nil {
 			ok = false
-			fmt.Fprintf(&b, "(* NOT TRANSLATED: %s *)\n", strings.ReplaceAll(strings.ReplaceAll(err.Error(), "(*", "( *"), "*)", "* )"))
+			fmt.Fprintf(&b, "(* NOT TRANSLATED: %s *)\n", clean(err))
 			// a placeholder of the right type that the obligation cannot be proved for
 			if m[0] == "Add" {
 				fmt.Fprintf(&b, "Definition %s {S : ScalarOps} (s_sum s_compensation value : S) : S * S := (zero S, zero S).\n\n", m[1])
@@ -358,6 +363,14 @@ func translateKernels(src, out string) error {
 		}
 		b.WriteString(d + "\n")
 	}
-	fmt.Fprintf(&b, "Definition kbn_translated : bool := %v.\n", ok)
+	fmt.Fprintf(&b, "Definition kbn_translated : bool := %v.\n\n", ok)
+	d, err := translateCanonicalize(src, bsrc)
+	if err != nil {
+		fmt.Fprintf(&b, "(* NOT TRANSLATED: %s *)\n", clean(err))
+		b.WriteString("Definition gen_canon {S : ScalarOps} (entries : list (nat * S)) : res (list (nat * S)) := ErrOther 0.\n\n")
+	} else {
+		b.WriteString(d + "\n")
+	}
+	fmt.Fprintf(&b, "Definition canon_translated : bool := %v.\n", err == nil)
 	return os.WriteFile(out, []byte(b.String()), 0o644)
 }
